@@ -1515,6 +1515,31 @@ def toggle_part():
                 again = in_thread(lambda: dec(*ill))
                 if again != ("raised", "TypeCheckError"):
                     bad(f"C19:toggle:thread:{who}:re-enable", f"{tcn}: after switching checking back on, an ill-typed call from a worker thread gave {again}", rep)
+            # --- typing.no_type_check applied AFTER the function has already been called (the marker is
+            # an attribute: it may be set, and removed again, at any time)
+            import typing
+
+            for target in ("wrapper", "function"):
+                rep = dict(case="late-ntc", target=target, tc=tcn)
+                n += 1
+
+                def f2(x, y):
+                    return (isinstance(D3, Fn), isinstance(D4, Fn))
+
+                f2.__annotations__ = {"x": Float[Duck, "a"], "y": Float[Duck, "a"]}
+                d2 = jaxtyped(typechecker=tc)(f2)
+                first = _safe(lambda: d2(*ill))
+                typing.no_type_check(d2 if target == "wrapper" else f2)
+                marked = _safe(lambda: d2(*ill))
+                obj = d2 if target == "wrapper" else f2
+                try:
+                    del obj.__no_type_check__
+                except AttributeError:
+                    obj.__no_type_check__ = False
+                unmarked = _safe(lambda: d2(*ill))
+                want = (("raised", "TypeCheckError"), ("ok", plain(*ill)), ("raised", "TypeCheckError"))
+                if (first, marked, unmarked) != want:
+                    bad(f"C19:toggle:late-no_type_check:{target}", f"{tcn}: ill-typed call before marking / after typing.no_type_check({target}) / after removing the marker gave {(first, marked, unmarked)}, expected {want}", rep)
             # --- switch flipped while a decorated call / a context block is on the stack
             for site in ("inside-decorated-call", "inside-context-block-off-to-on", "inside-context-block-on-to-off"):
                 rep = dict(case="during", site=site, tc=tcn)
